@@ -249,7 +249,7 @@ func (obj SparseConstFloat64Vector) ITERATOR() *SparseConstFloat64VectorIterator
   return &r
 }
 func (obj SparseConstFloat64Vector) ITERATOR_FROM(i int) *SparseConstFloat64VectorIterator {
-  k := 0
+  k := len(obj.indices)
   for j, idx := range obj.indices {
     if idx >= i {
       k = j
